@@ -120,6 +120,11 @@ class World(ControlWorld):
 
     async def check_parked(self):
         for s in list(self.parked):
+            if s.task.done():
+                exc = None if s.task.cancelled() else s.task.exception()
+                self.violate("C18.alive", f"the session parked in {self.parked[s]!r} ended: {'cancelled' if s.task.cancelled() else type(exc).__name__ if exc else 'returned'}")
+                del self.parked[s]
+                continue
             w = s.new_writes()
             if not w:
                 continue
@@ -163,12 +168,18 @@ class World(ControlWorld):
                 # the program that serves the pool also uses it directly
                 tok = targets.side.set("pre")
                 try:
-                    what = rng.choice(["lock", "unlock", "spawn", "cancel_all", "pool_size"])
+                    what = rng.choice(["lock", "unlock", "spawn", "cancel_all", "pool_size", "give_up_waiting", "give_up_waiting"])
                     if what == "spawn":
                         if not pool.is_locked:
                             (pool.apply(targets.work, args=(step,)) if self.sc["cls"] == "T" else pool.start(1))
                     elif what == "pool_size":
                         pool.pool_size = rng.choice([1, 2, 5, 9])
+                    elif what == "give_up_waiting":
+                        # application code waits for the close of the pool and gives up (a timeout): nobody else is concerned
+                        waiter = asyncio.ensure_future(pool.until_closed())
+                        await self.idle()
+                        waiter.cancel()
+                        self.sit["C18.direct_waiter_gave_up" + (".while_parked" if self.parked else "")] += 1
                     else:
                         getattr(pool, what)()
                 except Exception as e:  # noqa: BLE001
